@@ -30,7 +30,6 @@ import (
 	"testing"
 	"time"
 
-	"github.com/ory/keto/internal/driver/config"
 	"github.com/ory/keto/internal/namespace"
 	"github.com/ory/keto/internal/relationtuple"
 	"github.com/ory/keto/ketoapi"
@@ -304,6 +303,16 @@ func c09FromJSON(v any) *c09Node {
 	return n
 }
 
+func c09IsNotFoundBody(v any) bool {
+	m, ok := v.(map[string]any)
+	if !ok {
+		return false
+	}
+	_, hasType := m["type"]
+	code, _ := m["code"].(float64)
+	return !hasType && code == 404
+}
+
 func c09FromProto(p *rts.SubjectTree) *c09Node {
 	if p == nil {
 		return nil
@@ -359,21 +368,34 @@ func c09FromEngine(t *relationtuple.Tree, names map[string]string) *c09Node {
 // ---- one store state -----------------------------------------------------------
 
 type c09World struct {
-	s      *apih.Server
-	stmts  atomic.Int64 // statements since the last reset (tap before-hook)
-	limit  atomic.Int64 // horizon: statements beyond it fail
+	s       *apih.Server         // the registry with limit.max_read_depth 5 (also used for loading)
+	byDepth map[int]*apih.Server // one registry per global depth, all on the same database
+	stmts   atomic.Int64         // statements since the last reset (tap before-hook)
+	limit   atomic.Int64         // horizon: statements beyond it fail
 	tripped atomic.Bool
 }
 
 var errC09Horizon = fmt.Errorf("verif: statement horizon exceeded")
 
+// c09NewWorld: changing limit.max_read_depth at run time re-validates the
+// whole configuration (12 ms), so every global depth gets its own registry;
+// they share one database (same DSN), loaded once per case.
 func c09NewWorld(t testing.TB) *c09World {
-	w := &c09World{}
-	w.s = apih.NewServer(t, apih.Options{
-		Namespaces: []*namespace.Namespace{{Name: c09NS}},
-		Config:     map[string]any{"limit.max_read_depth": 5},
-	})
+	w := &c09World{byDepth: map[int]*apih.Server{}}
+	dsn := apih.NewDSN()
+	for _, d := range []int{5, 3, c09Unbound} {
+		w.byDepth[d] = apih.NewServer(t, apih.Options{
+			Namespaces: []*namespace.Namespace{{Name: c09NS}},
+			Config:     map[string]any{"limit.max_read_depth": d},
+			DSN:        dsn,
+		})
+		if got := w.byDepth[d].Reg.Config(w.byDepth[d].Ctx).MaxReadDepth(); got != d {
+			panic(fmt.Sprintf("c09: limit.max_read_depth is %d, configured %d", got, d))
+		}
+	}
+	w.s = w.byDepth[5]
 	w.limit.Store(1 << 40)
+	// the taps of all three registries match the shared database; one hook suffices
 	w.s.Tap.SetBefore(func(*sqlfault.Event) error {
 		if w.stmts.Add(1) > w.limit.Load() {
 			w.tripped.Store(true)
@@ -382,15 +404,6 @@ func c09NewWorld(t testing.TB) *c09World {
 		return nil
 	})
 	return w
-}
-
-func (w *c09World) setGlobal(d int) {
-	if err := w.s.Reg.Config(w.s.Ctx).Set(config.KeyLimitMaxReadDepth, d); err != nil {
-		panic(err)
-	}
-	if got := w.s.Reg.Config(w.s.Ctx).MaxReadDepth(); got != d {
-		panic(fmt.Sprintf("c09: limit.max_read_depth is %d after setting it to %d", got, d))
-	}
 }
 
 // load stores the tuples (one Transact) — order is set separately.
@@ -460,7 +473,12 @@ type c09Result struct {
 	Horizon bool
 }
 
-func (w *c09World) expand(transport string, root *ketoapi.SubjectSet, req int, names map[string]string, horizon int) c09Result {
+func (w *c09World) expand(transport string, root *ketoapi.SubjectSet, d c09Depth, names map[string]string, horizon int) c09Result {
+	srv := w.byDepth[d.Global]
+	if srv == nil {
+		panic(fmt.Sprintf("c09: no registry with limit.max_read_depth %d", d.Global))
+	}
+	req := d.Req
 	w.s.Settle()
 	w.tripped.Store(false)
 	w.stmts.Store(0)
@@ -468,14 +486,14 @@ func (w *c09World) expand(transport string, root *ketoapi.SubjectSet, req int, n
 	var r c09Result
 	switch transport {
 	case "engine":
-		ctx, cancel := context.WithTimeout(w.s.Ctx, 60*time.Second)
-		sub, err := w.s.Reg.ReadOnlyMapper().FromSubjectSet(ctx, root)
+		ctx, cancel := context.WithTimeout(srv.Ctx, 60*time.Second)
+		sub, err := srv.Reg.ReadOnlyMapper().FromSubjectSet(ctx, root)
 		if err != nil {
 			r.Err = "mapper: " + err.Error()
 			cancel()
 			break
 		}
-		t, err := w.s.Reg.ExpandEngine().BuildTree(ctx, sub, req)
+		t, err := srv.Reg.ExpandEngine().BuildTree(ctx, sub, req)
 		cancel()
 		switch {
 		case err != nil:
@@ -486,8 +504,12 @@ func (w *c09World) expand(transport string, root *ketoapi.SubjectSet, req int, n
 			r.Tree = c09FromEngine(t, names)
 		}
 	case "rest":
-		resp := w.s.Client().Expand(root, apih.Itoa(req))
+		resp := srv.Client().Expand(root, apih.Itoa(req))
 		switch {
+		case resp.Status == 200 && c09IsNotFoundBody(resp.JSON):
+			// keto answers "no tree" with HTTP 200 and a body {"code":404,...}
+			// (the handler uses Write, not WriteError); it is the no-tree answer
+			r.Absent = true
 		case resp.Status == 200:
 			r.Tree = c09FromJSON(resp.JSON)
 		case resp.Status == 404:
@@ -496,7 +518,7 @@ func (w *c09World) expand(transport string, root *ketoapi.SubjectSet, req int, n
 			r.Err = c05Short(resp.String())
 		}
 	case "grpc":
-		resp, err := w.s.Client().GExpand(apih.ProtoSubject(nil, root), int32(req))
+		resp, err := srv.Client().GExpand(apih.ProtoSubject(nil, root), int32(req))
 		switch {
 		case err != nil:
 			r.Err = err.Error()
@@ -758,16 +780,11 @@ func (r *c09Run) runState(w *c09World, family string, ts []*ketoapi.RelationTupl
 	if far {
 		r.nontriv.Add(1)
 	}
-	global := -1
 	for _, d := range depths {
-		if d.Global != global {
-			w.setGlobal(d.Global)
-			global = d.Global
-		}
 		eff := d.eff()
 		var leafIDs map[refsem.SubjectKey]bool
 		for _, tr := range transports {
-			res := w.expand(tr, root, d.Req, names, 4*(m.bound+m.tuples+1)+32)
+			res := w.expand(tr, root, d, names, 4*(m.bound+m.tuples+1)+32)
 			r.expands.Add(1)
 			fs, st := c09Judge(m, res, eff, tr)
 			if over := int64(st.levels - eff); res.Tree != nil && over > r.maxOver.Load() {
@@ -787,7 +804,7 @@ func (r *c09Run) runState(w *c09World, family string, ts []*ketoapi.RelationTupl
 			// depth not binding: subject-id leaves == subjects Check allows
 			if d.Global == c09Unbound && res.Tree != nil && len(fs) == 0 {
 				for _, u := range checkIDs {
-					resp := w.s.Client().CheckGET(&ketoapi.RelationTuple{Namespace: root.Namespace, Object: root.Object, Relation: root.Relation, SubjectID: axS(u)}, true, "")
+					resp := w.byDepth[c09Unbound].Client().CheckGET(&ketoapi.RelationTuple{Namespace: root.Namespace, Object: root.Object, Relation: root.Relation, SubjectID: axS(u)}, true, "")
 					r.checks.Add(1)
 					allowed, ok := resp.Allowed()
 					isLeaf := st.leafIDs[refsem.SubjectIDKey(u)]
